@@ -138,6 +138,8 @@ def run_shard(spec, tier, seed):
             aff = gates[g][0]
             bases = [(p, ans, reads[g]) for p, ans, reads in pool if g in reads]
             rng.shuffle(bases)
+            if g.split('.')[0] in INPUT_FORMS:
+                bases.sort(key=lambda b: -len(b[2]))     # a box on a statement: returns with several copies first (each copy is flipped on its own)
             if not bases:
                 res.add('gates_never_read_in_a_solved_base', f'{year}|{g}')
                 continue
@@ -170,7 +172,7 @@ def run_shard(spec, tier, seed):
         from hv import statutory as st
         cases = []
         # foreign tax above the Form 1116 election ceiling
-        for status in ('S', 'MFJ', 'HOH'):
+        for status in ('S', 'MFJ', 'HOH', 'QSS', 'MFS'):
             lim = st.amount('form_1116_ceiling', year, status)
             cases.append((f'foreign-tax-over-1116-ceiling|{status}', 'F2', status, {'1099-int:0.box_6': f'{lim + 1:.2f}'}, {'1040.number_1099-int': '1'}, '1099-int:0.box_6'))
         # more payers than Schedule B has rows
